@@ -82,6 +82,8 @@ func Zero(typ types.Type) string {
 			return `""`
 		case types.Bool:
 			return "false"
+		case types.UnsafePointer:
+			return "nil"
 		default:
 			return "0"
 		}
